@@ -52,7 +52,7 @@ Record C01_solution (r : run) : Prop := {
   c_start : exists a tl, r_path r = a :: tl /\ In (p_id a, true, true) (r_starts r);
   c_bounds : Forall (fun s => p_inb s = true) (r_path r);
   c_goal : exists l, last_state (r_path r) = Some l /\
-             (if r_approx r then r_status r = ST_APPROXIMATE /\ p_goal l = false /\ Z.abs (r_diff r - p_gdist l) <= r_tol r
+             (if r_approx r then r_status r = ST_APPROXIMATE /\ Z.abs (r_diff r - p_gdist l) <= r_tol r
               else r_status r = ST_EXACT /\ p_goal l = true);
   c_stretch : Forall (fun s => s_maxinv s < stretch_limit) (r_segs r);
   c_nsegs : Z.of_nat (length (r_segs r)) = Z.of_nat (length (r_path r)) - 1;
@@ -85,8 +85,8 @@ Proof.
     + rewrite Forall_forall. rewrite forallb_forall in E2. exact E2.
     + unfold goal_ok in E4. destruct (last_state (r_path r)) as [l|]; [|discriminate]. exists l. split; [reflexivity|].
       destruct (r_approx r).
-      * apply andb_prop in E4. destruct E4 as [E4 Hd]. apply andb_prop in E4. destruct E4 as [Hs Hg].
-        apply Z.eqb_eq in Hs. apply negb_true_iff in Hg. apply Z.leb_le in Hd. auto.
+      * apply andb_prop in E4. destruct E4 as [Hs Hd].
+        apply Z.eqb_eq in Hs. apply Z.leb_le in Hd. auto.
       * apply andb_prop in E4. destruct E4 as [Hs Hg]. apply Z.eqb_eq in Hs. auto.
     + rewrite Forall_forall. intros s Hs. specialize (E5b s Hs). apply andb_prop in E5b. destruct E5b as [Hm _]. apply Z.ltb_lt in Hm. exact Hm.
     + exact E5a.
